@@ -107,3 +107,13 @@ Definition agree (c : lcase) : bool :=
 (** number of distinct outcomes the model allows (reported in the evidence) *)
 Definition n_outcomes (phase : N) (cs : list cause) : N :=
   len (nodup (list_eq_dec N.eq_dec) (map proj_model (filter (quiescent_for phase cs) (explore phase cs)))).
+
+(** all three verdicts of a case in one number: oracle + 2 * oracle_m + 4 * agree *)
+Definition code (c : lcase) : N := b2n (oracle c) + 2 * b2n (oracle_m c) + 4 * b2n (agree c).
+
+(** the same for all observations made under one (phase, causes): the model is explored once *)
+Definition codes_group (g : N * list cause * list sobs) : list N :=
+  let '(phase, cs, obss) := g in
+  let outcomes := map proj_model (filter (quiescent_for phase cs) (explore phase cs)) in
+  map (fun o => b2n (oracle (phase, cs, o)) + 2 * b2n (oracle_m (phase, cs, o))
+                + 4 * b2n (existsb (fun p => list_eqb N.eqb p (proj_obs o)) outcomes)) obss.
